@@ -677,6 +677,75 @@ def _client_dataset_ctor(ctx, e, env):
   return ctx.expr(e.args[0], env, 'rows')
 
 
+def _len_first_column(ctx, e, env):
+  # len(next(iter(examples.values()))): the row count of the first column
+  a = e.args[0] if len(e.args) == 1 and not e.keywords else None
+  ok = (isinstance(a, ast.Call) and _dotted_or_none(a.func) == 'next' and len(a.args) == 1 and not a.keywords and
+        isinstance(a.args[0], ast.Call) and _dotted_or_none(a.args[0].func) == 'iter' and len(a.args[0].args) == 1 and
+        isinstance(a.args[0].args[0], ast.Call) and not a.args[0].args[0].args and
+        isinstance(a.args[0].args[0].func, ast.Attribute) and a.args[0].args[0].func.attr == 'values')
+  if not ok:
+    raise Unsupported('len(...) form')
+  r, _ = ctx.expr(a.args[0].args[0].func.value, env, 'rows')
+  return f'(Z.of_nat (length {r}))', 'Z'
+
+
+def A_consistent_rows(qual, coqname):
+  """assert_consistent_rows over the list of the columns' row counts (dict order):
+  sizes = {k: v.shape[0] ...}; empty -> ValueError; first (name, size); every other v with
+  <cond(v, size)> -> ValueError.  The condition is translated as written."""
+  head = ("sizes = {k: v.shape[0] for k, v in examples.items()}\n"
+          "if not sizes:\n  raise ValueError('No features in examples')\n"
+          "it = iter(sizes.items())\nname, size = next(it)\n")
+
+  def emit(tree):
+    fd = find_def(tree, qual)
+    if [a.arg for a in fd.args.args] != ['examples']:
+      raise Unsupported(f'{qual}: parameters')
+    body = _strip_doc(fd.body)
+    want = ast.parse(head).body
+    if len(body) != len(want) + 1 or [ast.dump(x) for x in body[:len(want)]] != [ast.dump(x) for x in want]:
+      raise Unsupported(f'{qual}: prelude is not the recognised form')
+    loop = body[-1]
+    ok = (isinstance(loop, ast.For) and not loop.orelse and isinstance(loop.target, ast.Tuple) and
+          [getattr(t, 'id', None) for t in loop.target.elts] == ['k', 'v'] and isinstance(loop.iter, ast.Name) and
+          loop.iter.id == 'it' and len(loop.body) == 1 and isinstance(loop.body[0], ast.If) and not loop.body[0].orelse and
+          len(loop.body[0].body) == 1 and StFn._is_value_error(loop.body[0].body[0]))
+    if not ok:
+      raise Unsupported(f'{qual}: loop is not `for k, v in it: if <cond>: raise ValueError(...)`')
+    c, _ = NpCtx().expr(loop.body[0].test, {'v': 'Z', 'size': 'Z'}, 'bool')
+    return (f'Definition {coqname} (sizes : list Z) : option unit :=\n'
+            f'  match sizes with [] => None | size :: it =>\n'
+            f'  if forallb (fun v : Z => negb {c}) it then Some tt else None end.')
+  return _closed(emit)
+
+
+def A_dataclass_defaults(cls, prefix, fields):
+  """The fields of an hparams dataclass, in order, with their annotations and DEFAULT values
+  (`fields`: [(name, annotation source, coq type or None when the field must have no default)])."""
+  def emit(tree):
+    cd = find_def(tree, cls)
+    if not isinstance(cd, ast.ClassDef) or [ast.unparse(d) for d in cd.decorator_list] != ['dataclasses.dataclass']:
+      raise Unsupported(f'{cls}: not a plain @dataclasses.dataclass')
+    body = _strip_doc(cd.body)
+    if len(body) != len(fields) or not all(isinstance(x, ast.AnnAssign) and isinstance(x.target, ast.Name) for x in body):
+      raise Unsupported(f'{cls}: fields')
+    out = []
+    for x, (name, ann, ty) in zip(body, fields):
+      if x.target.id != name or ast.unparse(x.annotation) != ann:
+        raise Unsupported(f'{cls}: field {x.target.id}: {ast.unparse(x.annotation)}')
+      if ty is None:
+        if x.value is not None:
+          raise Unsupported(f'{cls}.{name} has a default')
+        continue
+      if x.value is None:
+        raise Unsupported(f'{cls}.{name} has no default')
+      t, _ = Ctx().expr(x.value, {}, ty)
+      out.append(f'Definition {prefix}_{name}_default : {TY2[ty]} := {t}.')
+    return '\n'.join(out)
+  return _closed(emit)
+
+
 def A_paddedloop_checked(qual, coqname, params, names):
   """PaddedBatchView.__iter__ once more, with pad_examples bound to the TRANSLATED
   gen_pad_examples (option batch): the elements are `option batch`."""
@@ -761,6 +830,12 @@ MODULES = {
             A_plumbing('ClientDataset.__init__', ['self', 'raw_examples', 'preprocessor'], None,
                        'assert_consistent_rows(raw_examples)\nself.raw_examples = raw_examples\n'
                        'self.preprocessor = preprocessor\n'),
+            A_rowsfun('num_examples', 'gen_num_examples', [('examples', 'rows'), ('validate', 'bool')], 'Z',
+                      calls={'len': _len_first_column}),
+            A_consistent_rows('assert_consistent_rows', 'gen_assert_consistent_rows'),
+            A_dataclass_defaults('BatchHParams', 'hp_batch', [('batch_size', 'int', None), ('drop_remainder', 'bool', 'bool')]),
+            A_dataclass_defaults('PaddedBatchHParams', 'hp_padded',
+                                 [('batch_size', 'int', None), ('num_batch_size_buckets', 'int', 'Z')]),
             A_plumbing('BatchPreprocessor.__init__', ['self', 'fns'], None, 'self._fns = tuple(fns)\n'),
             A_plumbing('BatchPreprocessor.append', ['self', 'fn'], None, 'return BatchPreprocessor(self._fns + (fn,))\n'),
             A_plumbing('ClientDataset.all_examples', ['self'], None, 'return self.preprocessor(self.raw_examples)\n'),
@@ -798,6 +873,10 @@ MODULES = {
                        'if not isinstance(index, slice):\n'
                        "  raise ValueError(f'Only slicing is supported, got index {index!r}')\n"
                        'return ClientDataset(slice_examples(self.raw_examples, index), self.preprocessor)\n'),
+            A_dataclass_defaults('ShuffleRepeatBatchHParams', 'hp_shuffle',
+                                 [('batch_size', 'int', None), ('num_epochs', 'Optional[int]', 'optZ'),
+                                  ('num_steps', 'Optional[int]', 'optZ'), ('drop_remainder', 'bool', 'bool'),
+                                  ('seed', 'Optional[int]', 'optZ'), ('skip_shuffle', 'bool', 'bool')]),
             A_plumbing('ClientDataset.shuffle_repeat_batch', ['self', 'hparams'], 'kwargs',
                        _hparams_entry('ShuffleRepeatBatchHParams', 'ShuffleRepeatBatchView')),
             A_plumbing('ShuffleRepeatBatchView.__init__', ['self', 'client_dataset', 'hparams'], None,
